@@ -34,7 +34,7 @@ def native_replay(pid, payload_path):
 
 def do_replay(pid, path, as_json):
     mod = load_prop(pid)
-    payload = json.load(open(path if os.path.isabs(path) else os.path.join(core.VERIF, path)))
+    payload = json.load(open(path if os.path.isabs(path) else os.path.join(core.OUT, path)))
     try:
         res = mod.replay(payload)
     except Exception as e:
